@@ -84,7 +84,7 @@ def _rooted_in_self(t):
     return t == ("param", "self") or t == ("place", "self.0") or (isinstance(t, tuple) and t[:1] == ("place",) and t[1].startswith("self"))
 
 
-def check_method(ctx, rule, fx, adt_suffix, method, reach, delegates=(), impl_self=None):
+def check_method(ctx, rule, fx, adt_suffix, method, reach, delegates=(), impl_self=None, exempt=()):
     """One obligation per (variant, required field)."""
     adt = fx.adt(adt_suffix)
     path = adt["path"]
@@ -126,6 +126,8 @@ def check_method(ctx, rule, fx, adt_suffix, method, reach, delegates=(), impl_se
                 else:
                     expanded.add(f)
             for f in sorted(expanded):
+                if "%s.%s" % (vname, f) in exempt:
+                    continue
                 n += 1
                 got = set()
                 for val in hit:
